@@ -103,13 +103,14 @@ func ruleC01R1(r *Run) {
 	}
 }
 
-// streamOf returns the stream constructor call behind the T given to a checkOnce call.
+// streamOfCheckOnce returns the stream constructor call behind an execution of the property
+// (a checkOnce call or a wrapper around one).
 func (p *Program) streamOfCheckOnce(co *ssa.Call) (*ssa.Call, bool) {
-	nt, ok := p.resolve(co.Common().Args[0]).(*ssa.Call)
-	if !ok || p.calleeKey(nt.Common()) != "newT" {
+	rc, ok := p.runCallOf(co)
+	if !ok {
 		return nil, false
 	}
-	sc, ok := p.resolve(nt.Common().Args[1]).(*ssa.Call)
+	sc, ok := rc.Stream.(*ssa.Call)
 	if !ok {
 		return nil, false
 	}
@@ -137,7 +138,7 @@ func (p *Program) pairOK(buf, err ssa.Value) string {
 		}
 	}
 	// (a) err = checkOnce on a stream over buf / recording of that stream
-	if co, ok := err.(*ssa.Call); ok && p.calleeKey(co.Common()) == "checkOnce" {
+	if co, ok := err.(*ssa.Call); ok {
 		sc, ok := p.streamOfCheckOnce(co)
 		if ok {
 			if p.calleeKey(sc.Common()) == "newBufBitStream" && p.same(sc.Common().Args[0], buf) {
@@ -197,15 +198,28 @@ func ruleC01R2(r *Run) {
 		}
 	}
 	// (*shrinker).shrink: results are named cells also written by the recover closure
-	if fn := r.MustFn("(*shrinker).shrink$1"); fn != nil {
+	var recFn *ssa.Function
+	if sf := r.MustFn("(*shrinker).shrink"); sf != nil {
+		for _, cs := range p.calls(sf) {
+			if d, ok := cs.Instr.(*ssa.Defer); ok && cs.Fn == sf {
+				if f := deferredFn(p, d); f != nil && len(p.callsTo(f, "builtin:recover")) > 0 {
+					recFn = f
+				}
+			}
+		}
+		if recFn == nil {
+			r.Fail("(*shrinker).shrink#recover", sf.Pos(), "(*shrinker).shrink has no recovering defer: an unstable failure during minimisation escapes as a panic")
+		}
+	}
+	if fn := recFn; fn != nil {
 		var bufV, errV ssa.Value
 		for _, b := range p.body(fn) {
 			for _, in := range b.Instrs {
 				if st, ok := in.(*ssa.Store); ok {
 					switch p.expr(st.Addr) {
-					case "^buf":
+					case "^buf", "$buf":
 						bufV = st.Val
-					case "^err":
+					case "^err", "$err":
 						errV = st.Val
 					}
 				}
@@ -216,7 +230,7 @@ func ruleC01R2(r *Run) {
 			okRec = false
 		}
 		n++
-		r.Check("(*shrinker).shrink$1#recover.pair", fn.Pos(), okRec, "on an internal panic the current best buffer is returned with the recovered *testError", "the recover path of (*shrinker).shrink returns "+p.expr(bufV)+" / "+p.expr(errV))
+		r.Check("(*shrinker).shrink#recover.pair", fn.Pos(), okRec, "on an internal panic the current best buffer is returned with the recovered *testError", "the recover path of (*shrinker).shrink returns "+p.expr(bufV)+" / "+p.expr(errV))
 	}
 	// the normal return of (*shrinker).shrink
 	if fn := r.MustFn("(*shrinker).shrink"); fn != nil {
@@ -393,20 +407,22 @@ func ruleC05R1(r *Run) {
 		r.Fail("(*shrinker).accept#compare", fn.Pos(), "accept never compares the candidate with the current best: compareData(buf, s.rec.data)")
 		return
 	}
-	cos := p.callsTo(fn, "checkOnce")
-	if len(cos) != 2 {
-		r.Fail("(*shrinker).accept#runs", fn.Pos(), fmt.Sprintf("accept executes the candidate %d times (expected twice: verify, then record)", len(cos)))
+	rcs := p.runCalls(fn)
+	if len(rcs) != 2 {
+		r.Fail("(*shrinker).accept#runs", fn.Pos(), fmt.Sprintf("accept executes the candidate %d times (expected twice: verify, then record)", len(rcs)))
 		return
 	}
-	co1, co2 := cos[0], cos[1]
-	if dominates(co2.Instr, co1.Instr) {
-		co1, co2 = co2, co1
+	rc1, rc2 := rcs[0], rcs[1]
+	if dominates(rc2.Call, rc1.Call) {
+		rc1, rc2 = rc2, rc1
 	}
+	co1 := &callSite{Fn: fn, Instr: rc1.Call, Common: rc1.Call.Common(), Key: p.calleeKey(rc1.Call.Common())}
+	co2 := &callSite{Fn: fn, Instr: rc2.Call, Common: rc2.Call.Common(), Key: p.calleeKey(rc2.Call.Common())}
 	e1, e2 := co1.Value(), co2.Value()
-	for i, co := range []*callSite{co1, co2} {
-		sc, ok := p.streamOfCheckOnce(co.Instr.(*ssa.Call))
+	for i, rc := range []*runCall{rc1, rc2} {
+		sc, ok := rc.Stream.(*ssa.Call)
 		okB := ok && p.calleeKey(sc.Common()) == "newBufBitStream" && p.resolve(sc.Common().Args[0]) == ssa.Value(bufP)
-		r.Check(fmt.Sprintf("(*shrinker).accept#run%d.buf", i+1), co.Instr.Pos(), okB && p.expr(co.Common.Args[1]) == "$s.prop", "the candidate itself is executed with the property", "accept executes something other than the candidate buffer / the property")
+		r.Check(fmt.Sprintf("(*shrinker).accept#run%d.buf", i+1), rc.Call.Pos(), okB && rc.Prop == "$s.prop", "the candidate itself is executed with the property", "accept executes something other than the candidate buffer / the property")
 	}
 	var recStores, errStores []*ssa.Store
 	for _, fa := range p.fieldAccesses("shrinker") {
